@@ -116,6 +116,8 @@ class TTerm(T.Terminologies):
     __contains__ = TDict.__contains__
     __getitem__ = TDict.__getitem__
     __setitem__ = TDict.__setitem__
+    def clear(self):
+        S.yield_point(("loaded.clear", "-", 0)); return dict.clear(self)
 
 
 GRAPHS = {
@@ -123,6 +125,7 @@ GRAPHS = {
     "diamond": {"A": ["B", "C"], "B": ["D"], "C": ["D"], "D": []},
     "missingleaf": {"A": ["B"], "B": ["C"], "C": [], "D": []},
     "badleaf": {"A": ["B"], "B": ["C"], "C": [], "D": []},
+    "binaryleaf": {"A": ["B"], "B": ["C"], "C": [], "D": []},      # C exists but is not UTF-8 text: the fetch fails
 }
 PROGS = {
     "dA_lA": [("deferred_load", "A"), ("load", "A")],
@@ -131,32 +134,73 @@ PROGS = {
     "dD_dB_lD_lD": [("deferred_load", "D"), ("deferred_load", "B"), ("load", "D"), ("load", "D")],
     "lA_lA": [("load", "A"), ("load", "A")],
     "lC_dA_lC": [("load", "C"), ("deferred_load", "A"), ("load", "C")],
+    "lA_rA_lA": [("load", "A"), ("refresh", "A"), ("load", "A")],
+    "dA_rA_lA_lA": [("deferred_load", "A"), ("refresh", "A"), ("load", "A"), ("load", "A")],
+    "lC_rC_lC_lC": [("load", "C"), ("refresh", "C"), ("load", "C"), ("load", "C")],
+    "dB_rA_lB_lA": [("deferred_load", "B"), ("refresh", "A"), ("load", "B"), ("load", "A")],
 }
+REFRESH_PROGS = [p for p, ops in PROGS.items() if any(o == "refresh" for o, _ in ops)]
 
 
 def fetchable(graph, x):
-    return not (graph == "missingleaf" and x == "C")
+    return not (graph in ("missingleaf", "binaryleaf") and x == "C")
 
 
 def parsable(graph, x):
     return not (graph == "badleaf" and x == "C")
 
 
+def resource_text(graph, x, urls, old=False):
+    if not parsable(graph, x):
+        return '<odML version="1.1"><section><name>sec%s</name>' % x
+    body = '<property><name>%sp%s</name><value>%s</value><type>string</type></property>' % ("OLD" if old else "", x, x)
+    for y in GRAPHS[graph][x]:
+        body += '<section><name>inc%s</name><type>t</type><include>%s#/sec%s</include></section>' % (y, urls[y], y)
+    return '<?xml version="1.0" encoding="UTF-8"?>\n<odML version="1.1"><section><name>sec%s</name><type>t</type>%s</section></odML>' % (x, body)
+
+
 def make_resources(graph, d):
     """tiny odML files with file: includes; returns {name: url}"""
     urls = {x: "file://" + os.path.join(d, x + ".xml") for x in GRAPHS[graph]}
-    for x, incs in GRAPHS[graph].items():
-        if not fetchable(graph, x):
-            continue
-        path = os.path.join(d, x + ".xml")
-        if not parsable(graph, x):
-            open(path, "w").write('<odML version="1.1"><section><name>sec%s</name>' % x)
-            continue
-        body = '<property><name>p%s</name><value>%s</value><type>string</type></property>' % (x, x)
-        for y in incs:
-            body += '<section><name>inc%s</name><type>t</type><include>%s#/sec%s</include></section>' % (y, urls[y], y)
-        open(path, "w").write('<?xml version="1.0" encoding="UTF-8"?>\n<odML version="1.1"><section><name>sec%s</name><type>t</type>%s</section></odML>' % (x, body))
+    for x in GRAPHS[graph]:
+        if fetchable(graph, x):
+            open(os.path.join(d, x + ".xml"), "w").write(resource_text(graph, x, urls))
+        elif graph == "binaryleaf":
+            open(os.path.join(d, x + ".xml"), "wb").write(resource_text(graph, x, urls).replace("sec", "s\xe9c").encode("latin-1") + b"\xff\xfe")
     return urls
+
+
+def cache_path(tmp, url):
+    return os.path.join(tmp, "odml.cache", ".".join([hashlib.md5(url.encode()).hexdigest(), os.path.basename(url)]))
+
+
+def make_cache(graph, urls, tmp, state):
+    """the download cache at the start: 'empty'; 'warm': a fresh, identical copy of every resource that exists;
+    'stale': an outdated copy (older than the cache age, other content) of every resource, also of a vanished one"""
+    if state == "empty":
+        return
+    os.makedirs(os.path.join(tmp, "odml.cache"), exist_ok=True)
+    for x, u in urls.items():
+        if state == "warm" and fetchable(graph, x):
+            open(cache_path(tmp, u), "w").write(resource_text(graph, x, urls))
+        elif state == "stale":
+            cp = cache_path(tmp, u)
+            open(cp, "w").write(resource_text(graph, x, urls, old=True))
+            old = __import__("time").time() - 3 * 86400
+            os.utime(cp, (old, old))
+
+
+def cache_facts(graph, urls, tmp):
+    """per url: 'absent' | 'current' (the resource's text) | 'old' (the planted outdated text) | 'other'"""
+    out = {}
+    for x, u in urls.items():
+        cp = cache_path(tmp, u)
+        if not os.path.exists(cp):
+            out[x] = "absent"
+            continue
+        data = open(cp).read()
+        out[x] = "current" if data == resource_text(graph, x, urls) else "old" if data == resource_text(graph, x, urls, old=True) else "other"
+    return out
 
 
 def expected_sig(graph, x):
@@ -181,7 +225,7 @@ def actual_sig(doc):
         return "unreadable:" + type(e).__name__
 
 
-def _run(graph, prog, schedule, workdir, variant="terminology"):
+def _run(graph, prog, schedule, workdir, variant="terminology", cache="empty"):
     """one execution under `schedule` (list of thread ids; where it gives no usable choice the
     running thread continues, else the lowest enabled one).  Returns a dict."""
     global S, URLKEY
@@ -191,6 +235,8 @@ def _run(graph, prog, schedule, workdir, variant="terminology"):
     tmp = os.path.join(d, "tmp"); os.makedirs(tmp)
     tempfile.tempdir = tmp
     urls = make_resources(graph, res_dir)
+    make_cache(graph, urls, tmp, cache)
+    cache_before = cache_facts(graph, urls, tmp)
     URLKEY = {u: x for x, u in urls.items()}
     T.threading = types.SimpleNamespace(Thread=CThread)
     T.Terminologies.loading = TDict()
@@ -252,20 +298,15 @@ def _run(graph, prog, schedule, workdir, variant="terminology"):
         sys.stdout, sys.stderr = old
         tempfile.tempdir = None
     unfinished = [t for t, th in S.threads.items() if th["state"] == "running"]
-    cache_dir = os.path.join(tmp, "odml.cache")
-    cached = []
-    if os.path.isdir(cache_dir):
-        for f in os.listdir(cache_dir):
-            for x in urls:
-                if f.endswith("." + x + ".xml"):
-                    cached.append(x)
+    cache_after = cache_facts(graph, urls, tmp)
+    cached = [x for x in urls if cache_after[x] != "absent"]
     errs = {str(t): ("none" if th["exc"] is None else type(th["exc"]).__name__) for t, th in S.threads.items()}
     return {"results": results, "errs": errs, "log": S.log, "choices": choices, "deadlock": bool(unfinished),
-            "cached": sorted(cached), "steps": i}
+            "cached": sorted(cached), "steps": i, "cache_before": cache_before, "cache_after": cache_after}
 
 
-def run(graph, prog, schedule, workdir, variant="terminology"):
-    r = _run(graph, prog, schedule, workdir, variant)
+def run(graph, prog, schedule, workdir, variant="terminology", cache="empty"):
+    r = _run(graph, prog, schedule, workdir, variant, cache)
     from .loader import errname
     r["errs"] = {str(t): errname(th["exc"]) for t, th in S.threads.items()}
     for x in r["results"]:
